@@ -28,6 +28,7 @@ type Mix struct {
 	Adversarial int // 1-in-N txs are deliberately malformed (0 = never)
 	Identity    bool
 	Ceremony    bool
+	NoGodChange bool // leave ChangeGodAddressTx out of the mix
 }
 
 func (s *Scn) stateNonce(n *simnode.Node, a common.Address) (uint32, uint16) {
@@ -85,6 +86,9 @@ func (s *Scn) GenTx(view *simnode.Node, mix Mix) (*types.Transaction, string) {
 		kinds = append(kinds, "anshash", "shortans", "longans", "evidence", "anshash", "shortans")
 	}
 	what = kinds[t.Choose("tx.kind", len(kinds))]
+	if what == "god" && mix.NoGodChange {
+		what = "send"
+	}
 	frac := func() *big.Int {
 		// a fraction of the balance: 0, tiny, 1/10, 1/2, all
 		switch t.Choose("tx.amount", 6) {
